@@ -1480,7 +1480,7 @@ def make_config(rseed: int, prop: str, tier: str, faults: bool) -> dict[str, Any
         infix = "):b=<class 'str'>("
         strpool = ["1" + infix + "2" + e, "3", "1" + e, "2" + infix + "3"] + r.sample(U.STR_POOL, 1)
     leafs = ["LeafA", "LeafB", "LeafA2", "Meta"]
-    extra = ["Vals", "Carrier", "Boom", "Serial", "Upper", "Lit", "Located", "Typed", "Dyn"]
+    extra = ["Vals", "Carrier", "Boom", "Serial", "Upper", "Lit", "Located", "Typed", "Dyn", "CaseMix", "Both"]
     if prop in ("C01",):
         extra.append("FS")
         if r.random() < 0.25:
@@ -1491,6 +1491,12 @@ def make_config(rseed: int, prop: str, tier: str, faults: bool) -> dict[str, Any
         extra.remove("Serial")
     if prop == "C09":
         leafs += ["Lit"]
+        if r.random() < 0.3:
+            leafs += ["Dyn", "Both"]
+    if prop == "C14" and r.random() < 0.4:
+        leafs += ["Both", "Located"]
+    if prop == "C01" and r.random() < 0.3:
+        leafs += ["CaseMix", "CaseMix"]
     if prop == "C04":
         leafs += ["Vals", "Vals"]
     leafs += r.sample(extra, r.choice([0, 1, 2, 3, len(extra)]))
@@ -1537,7 +1543,7 @@ def make_config(rseed: int, prop: str, tier: str, faults: bool) -> dict[str, Any
         "p_bad_replace": r.choice([0.2, 0.4]),
         "leaf_classes": leafs,
         "inner_classes": inner,
-        "origins": r.sample(U.ORIGIN_KEYS, r.choice([1, 2, 3])),
+        "origins": r.sample(U.ORIGIN_KEYS, r.choice([1, 2, 3])) + (r.sample(U.EXTRA_ORIGIN_KEYS, r.choice([1, 2, 3])) + ["g:a"] if prop == "C04" and r.random() < 0.4 else []),
         "pools": pools,
         "weights": weights,
         "formats": r.sample(list(FORMATS), r.choice([1, 2, 4])),
